@@ -284,13 +284,14 @@ Proof.
   apply existsb_exists. exists p. split; [exact Hin | apply proc_eqb_refl].
 Qed.
 
-Lemma macro_classic_create s a : QInv s -> ext_ok s (Cmd (ClassicCreate a)) = true ->
-  QInv (fst (p_run s (macro (Cmd (ClassicCreate a))))).
+Lemma macro_classic_create s a : QInv s -> QInv (fst (p_run s (macro (Cmd (ClassicCreate a))))).
 Proof.
-  intros Q E. rewrite macro_run. cbn [p_step step_cmd].
-  cbn [ext_ok] in E. apply andb_true_iff in E. destruct E as [E _]. apply negb_true_iff in E.
+  intros Q. rewrite macro_run. cbn [p_step step_cmd].
   destruct (p_pend_le s) eqn:P; cbn [fst].
   { rewrite (settle2_quiet s (q_to s Q) (q_from s Q)). exact Q. }
+  destruct (classic_busy s a) eqn:B; cbn [fst].
+  { rewrite (settle2_quiet s (q_to s Q) (q_from s Q)). exact Q. }
+  unfold classic_busy in B. apply orb_false_iff in B. destruct B as [E _].
   destruct (memz a (p_present s)) eqn:Pr; cbn [fst].
   2:{ rewrite (settle2_quiet s (q_to s Q) (q_from s Q)). exact Q. }
   unfold settle2. cbn [p_step p_to upd]. rewrite (q_to s Q). cbn [app p_present upd]. rewrite Pr. cbn [fst].
@@ -390,7 +391,7 @@ Proof.
     + apply macro_disconnect; exact Q.
     + apply macro_read_feat; exact Q.
     + apply macro_encrypt; exact Q.
-    + apply macro_classic_create; assumption.
+    + apply macro_classic_create; exact Q.
     + apply macro_remote_name; exact Q.
   - apply macro_adv; exact Q.
   - rewrite macro_run, (quiet_to_peer s (q_to s Q)). cbn [fst].
@@ -446,12 +447,12 @@ Lemma peer_gone_refuted :
   p_quiet s = true /\ p_open s = [PFeat 1] /\ forallb (open_ended s) (p_open s) = false.
 Proof. vm_compute. auto. Qed.
 
-(* D03k: in bumble the second Create Connection overwrites the first: both are accepted, one
-   Connection Complete arrives.  The model keeps honest books (two procedures opened); the peer's
-   single acceptance concludes one of them and nothing is left to conclude the other. *)
-Lemma double_classic_create_refuted :
-  let s := fst (p_run (p_init [3]) (settled [Cmd (ClassicCreate 3); Cmd (ClassicCreate 3); PeerAccept 3])) in
-  p_quiet s = true /\ p_open s = [PClassic 3] /\ forallb (open_ended s) (p_open s) = false.
+(* D03k (repaired): a second Create Connection for a peer whose connection is being created, or
+   exists, is refused with Connection Already Exists; the first one is concluded normally *)
+Lemma double_classic_create_refused :
+  let '(s, o) := p_run (p_init [3]) (settled [Cmd (ClassicCreate 3); Cmd (ClassicCreate 3); PeerAccept 3;
+                                              Cmd (ClassicCreate 3)]) in
+  map out_code o = [[0; 1029; 0]; [0; 1029; 11]; [6; 0; 1; 3]; [0; 1029; 11]] /\ p_open s = [].
 Proof. vm_compute. auto. Qed.
 
 (* D03d, the unrepaired cancel: a model of the old handler (Command Complete only, the pending
